@@ -287,3 +287,29 @@ def datetime_one_sided_timezone(h1: int, h2: int, oi: int) -> bool:
     ia, ib = h1 * 60, h2 * 60 - off                                  # instants in minutes, UTC
     return _val('lt', a, b) == (ia < ib) and _val('gt', b, a) == (ia < ib) and _val('eq', a, b) == (ia == ib) \
         and _val('eq', b, a) == (ia == ib) and _val('ge', a, b) == (ia >= ib) and _val('le', b, a) == (ia >= ib)
+
+
+# --- added after round-2 seeded changes: xs:double vs xs:decimal pairs with values that are NOT exact in binary (decimal -> double) ------
+
+DBL = (0.1, 1.1, 3.3, 0.5, 2.675, -0.1, 0.30000000000000004, 1e-7)
+DEC = tuple(Decimal(s) for s in ('0.1', '1.1', '3.3', '0.5', '2.675', '-0.1', '0.3', '0.1000000000000000055511151231257827',
+                                 '0.30000000000000004', '0.0000001'))
+
+
+@ob(budget=200, kind='hunt', bound='x from a table of 8 doubles (6 inexact in binary), d from a table of 10 decimals, indices and operand order '
+                                   'chosen by the solver: the six value comparisons and the six general comparisons compare x with the '
+                                   'double nearest to d (decimal promoted to double), in both operand orders (table of values: bug-hunting)',
+    funcs=[B + ':iter_comparison_data', B + ':get_operands', O2 + ':value comparisons'])
+def double_decimal_promotion(i: int, j: int, swap: bool) -> bool:
+    """
+    pre: 0 <= i < 8 and 0 <= j < 10
+    post: _
+    """
+    x, d = DBL[i], DEC[j]
+    y = float(d)
+    for k, f in OPS.items():
+        want = f(y, x) if swap else f(x, y)
+        a, b = (d, x) if swap else (x, d)
+        if _val(k, a, b) is not want or _gen(k, [a], [b]) is not want or _gen(k, [a, a], [b]) is not want:
+            return False
+    return True
